@@ -15,6 +15,8 @@ import (
 	"github.com/tonkeeper/tongo/ton"
 
 	"verifharness/internal/core"
+	"verifharness/internal/gen"
+	"verifharness/internal/ref"
 	"verifharness/internal/tlbgen"
 	"verifharness/internal/typereg"
 )
@@ -53,10 +55,11 @@ func typeName(t reflect.Type) string {
 }
 
 var (
-	accountT = reflect.TypeOf(ton.AccountID{})
-	int256T  = reflect.TypeOf(tl.Int256{})
-	msgAddrT = reflect.TypeOf(tlb.MsgAddress{})
-	magicT   = reflect.TypeOf(tlb.Magic(0))
+	accountT   = reflect.TypeOf(ton.AccountID{})
+	int256T    = reflect.TypeOf(tl.Int256{})
+	msgAddrT   = reflect.TypeOf(tlb.MsgAddress{})
+	magicT     = reflect.TypeOf(tlb.Magic(0))
+	bitStringT = reflect.TypeOf(boc.BitString{})
 )
 
 func genValue(c *core.Ctx, t reflect.Type) (reflect.Value, error) {
@@ -69,6 +72,12 @@ func genValue(c *core.Ctx, t reflect.Type) (reflect.Value, error) {
 		}
 		copy(a.Address[:], c.Content("addr", 32))
 		return reflect.ValueOf(a), nil
+	case bitStringT:
+		n := c.OneOf("bs.len", 0, 1, 3, 4, 7, 8, 1021, 1022, 1023)
+		if c.Bool("bs.rnd") {
+			n = c.Range("bs.n", 0, 1023)
+		}
+		return reflect.ValueOf(gen.BitString(ref.Bits(c.Bits("bs.bits", n)))), nil
 	case magicT:
 		// as a stand-alone JSON value a Magic is just a number; zero and the extremes included
 		return reflect.ValueOf(tlb.Magic(uint32([]uint64{0, 1, 0x10, 0xff, 0xffffffff, c.U64("magic")}[c.Choose("magic.k", 6)]))), nil
